@@ -1,3 +1,4 @@
+from copy import deepcopy
 from datetime import datetime
 
 import numpy as np
@@ -117,7 +118,7 @@ class EOFRotator(EOF):
         return self
 
     def _fit_algorithm(self, model) -> Self:
-        self.preprocessor = model.preprocessor
+        self.preprocessor = deepcopy(model.preprocessor)
         self.sample_name = model.sample_name
         self.feature_name = model.feature_name
         self.sorted = False
